@@ -123,8 +123,15 @@ def rand_history(seed):
         else:
             try:
                 doc.add_page_break_style()
-                st = doc.get_style("paragraph", "odfdopagebreak")
-                ev["pagebreak_ok"] = st is not None and (st.get_properties("paragraph") or {}).get("fo:break-after") == "page"
+                # (read from the common styles of styles.xml, where the helper puts it: an automatic namesake inserted by the
+                # history would shadow it in a lookup by name - the documented assumption on homonyms)
+                from lxml import etree as _et
+
+                root = _et.fromstring(doc.get_part("styles.xml").serialize())
+                ns = {"office": "urn:oasis:names:tc:opendocument:xmlns:office:1.0", "style": "urn:oasis:names:tc:opendocument:xmlns:style:1.0",
+                      "fo": "urn:oasis:names:tc:opendocument:xmlns:xsl-fo-compatible:1.0"}
+                hits = root.xpath("office:styles/style:style[@style:name='odfdopagebreak'][@style:family='paragraph']", namespaces=ns)
+                ev["pagebreak_ok"] = len(hits) == 1 and any(pp.get("{%s}break-after" % ns["fo"]) == "page" for pp in hits[0].findall("style:paragraph-properties", ns))
             except Exception as ex:  # noqa: BLE001
                 ev["exc"] = repr(ex)[:200]
         ev["post"], ev["post_other"] = sl.project(doc), sl.project(other)
